@@ -254,3 +254,57 @@ impl<K, V> FnvHashMap<K, V> {
 pub mod hash_map {
     pub use super::Entry;
 }
+
+/// tokio's UNBOUNDED mpsc including its CLOSING contract, for transport/channel.rs (C15, in-memory
+/// transport).  Separate from `mpsc` above so that the harnesses using that one are not touched.
+/// Contract modelled (tokio 1.x docs): FIFO; `send` fails once the receiver is gone; `is_closed`
+/// is true exactly when the receiver is gone; `poll_recv` returns the oldest buffered item, and
+/// only when the buffer is EMPTY: `Ready(None)` if every sender is gone, else `Pending`.
+/// Wake-ups are not modelled (the harness polls by hand).  At most QCAP buffered items (assertion).
+pub mod mpsc_closing {
+    use super::*;
+    pub mod error {
+        #[derive(Debug)]
+        pub struct SendError<T>(pub T);
+    }
+    pub const QCAP: usize = 3;
+    struct Chan<T> { items: [MaybeUninit<T>; QCAP], head: usize, len: usize, senders: usize, rx_alive: bool }
+    pub struct UnboundedSender<T>(*mut Chan<T>);
+    pub struct UnboundedReceiver<T>(*mut Chan<T>);
+    unsafe impl<T> Send for UnboundedSender<T> {}
+    unsafe impl<T> Sync for UnboundedSender<T> {}
+    unsafe impl<T> Send for UnboundedReceiver<T> {}
+    unsafe impl<T> Sync for UnboundedReceiver<T> {}
+    impl<T> std::fmt::Debug for UnboundedSender<T> { fn fmt(&self, f: &mut std::fmt::Formatter<'_>) -> std::fmt::Result { f.write_str("UnboundedSender") } }
+    impl<T> std::fmt::Debug for UnboundedReceiver<T> { fn fmt(&self, f: &mut std::fmt::Formatter<'_>) -> std::fmt::Result { f.write_str("UnboundedReceiver") } }
+    pub fn unbounded_channel<T>() -> (UnboundedSender<T>, UnboundedReceiver<T>) {
+        // the shared state is leaked: freeing it is not the subject
+        let c = Box::into_raw(Box::new(Chan { items: unsafe { MaybeUninit::uninit().assume_init() }, head: 0, len: 0, senders: 1, rx_alive: true }));
+        (UnboundedSender(c), UnboundedReceiver(c))
+    }
+    impl<T> Clone for UnboundedSender<T> { fn clone(&self) -> Self { unsafe { (*self.0).senders += 1; } UnboundedSender(self.0) } }
+    impl<T> Drop for UnboundedSender<T> { fn drop(&mut self) { unsafe { (*self.0).senders -= 1; } } }
+    impl<T> Drop for UnboundedReceiver<T> { fn drop(&mut self) { unsafe { (*self.0).rx_alive = false; } } }
+    impl<T> UnboundedSender<T> {
+        pub fn send(&self, t: T) -> Result<(), error::SendError<T>> {
+            let c = unsafe { &mut *self.0 };
+            if !c.rx_alive { return Err(error::SendError(t)); }
+            assert!(c.len < QCAP, "verif_env: model queue bound exceeded");
+            let idx = (c.head + c.len) % QCAP;
+            c.items[idx] = MaybeUninit::new(t);
+            c.len += 1;
+            Ok(())
+        }
+        pub fn is_closed(&self) -> bool { unsafe { !(*self.0).rx_alive } }
+    }
+    impl<T> UnboundedReceiver<T> {
+        pub fn poll_recv(&mut self, _: &mut Context<'_>) -> Poll<Option<T>> {
+            let c = unsafe { &mut *self.0 };
+            if c.len == 0 { return if c.senders == 0 { Poll::Ready(None) } else { Poll::Pending }; }
+            let t = unsafe { std::ptr::read(c.items[c.head].as_ptr()) };
+            c.head = (c.head + 1) % QCAP;
+            c.len -= 1;
+            Poll::Ready(Some(t))
+        }
+    }
+}
